@@ -20,6 +20,10 @@ its strips of (A, P, R, A_c) of every level (recorded by the coarsening wrapper)
                      (also across the merge repartitioning);
   direct solver      mpi::direct::skyline_lu returns the solution of the gathered system (exactly
                      recomputed residual <= tolerance) on every rank layout, twice.
+  PMIS model         op `pmis` with cols = 0, block_size = 1 is also compared EXACTLY with the extracted Coq model of the
+                     distributed aggregation (Pmis.v, op m.pmis): aggregate column of every unknown, number of aggregates of
+                     every rank, strength pattern -- for all graphs on n <= 4 unknowns x all contiguous partitions on 1..4
+                     ranks, all non-symmetric patterns on n <= 3, random graphs and weighted matrices.
   near-null space    op `pmis` runs amgcl::mpi::coarsening::pmis<Backend> itself (aggregation + tentative
                      prolongation) and `solve` with ns.cols/ns.B runs the whole hierarchy with
                      coarsening.aggr.nullspace.cols in {1,2,3} (B = [1, x + 3/8 y, y - 3/16 x] on grids, block_size 1
@@ -46,15 +50,19 @@ ASSUMPTIONS = [
     "MPI runtime: progress / deadlock freedom / arrival order are not modelled; every mpirun runs under timeout",
     "the distributed solve runs at double (MPI datatypes); truthfulness compares the reported residual (a floating-point "
     "recurrence) with the exactly recomputed true residual within a tested tolerance (1e-6 relative + 1e-12; IDR(s) 1e-10)",
-    "PMIS aggregation, repartitioning (merge) and the consolidation of the coarse problem are covered by the oracle runs only "
-    "(no Coq model); ParMETIS/Scotch/PaStiX/Eigen-SparseLU are not installed",
+    "PMIS aggregation: Coq model Pmis.v (block_size 1, no near-null space), tied exactly (op pmis vs m.pmis); its block_size > 1 lifting and the "
+    "near-null-space prolongation (QR at double, row exchange) are covered by the PmisSpec oracles only; repartitioning (merge), smoothing of P and the "
+    "consolidation of the coarse problem are covered by the oracle runs only (no Coq model); ParMETIS/Scotch/PaStiX/Eigen-SparseLU are not installed",
+    "PMIS model: the point-to-point messages of a round arrive completely and are applied in neighbour-list (rank) order; strength rows contain the diagonal",
     "the rank-lifted solver theorems (DistSolveProofs.v) are about CG and Richardson with abstract distributed preconditioner; "
     "the other Krylov methods are covered by the rank-consistency oracle only",
 ]
-TRUSTED_BASE = ["mpirun/Open MPI 4.1.4, mpicxx (g++ 12); harness/drv_mpi_solve.cpp (recording coarsening wrapper, gather to rank 0)"]
+TRUSTED_BASE = ["mpirun/Open MPI 4.1.4, mpicxx (g++ 12); harness/drv_mpi_solve.cpp (recording coarsening wrapper, op pmis calling "
+                "mpi::coarsening::pmis directly, gather to rank 0); tools/props/C12.py assembles the ranks' strips before comparing with the model"]
 RULE = ("cases derived from VERIF_SEED by tools/props/C12.py: coarsening {aggregation, smoothed_aggregation} x 9 relaxations x 9 "
         "solvers (+ relaxation-as-preconditioner x solvers), merge repartitioning on/off, SPD M-matrices n = 8..48, random "
-        "contiguous partitions with empty ranks; non-trivial = all ranks returned a result line")
+        "contiguous partitions with empty ranks; near-null-space cases (cols 0..3, block_size 1/2, grids with thin strips on 2..8 ranks); PMIS model tie: all "
+        "graphs n <= 4 (thorough: 5) x all contiguous partitions on 1..4 ranks, all directed patterns n <= 3, random graphs; non-trivial = all ranks returned a result line")
 
 COARSENINGS = ["aggregation", "smoothed_aggregation"]
 RELAX = ["spai0", "damped_jacobi", "gauss_seidel", "ilu0", "iluk", "ilup", "ilut", "spai1", "chebyshev"]
@@ -124,11 +132,7 @@ def cases(tier, seed):
     for np_ in ([2, 3, 4, 5, 6, 8] if quick else [2, 3, 4, 5, 6, 7, 8]):
         for K in (0, 1, 2, 3):
             for bs in (1, 2):
-                # block_size >= 2 with nullspace.cols >= 2 runs into the known finding C12-pmis-nullspace-block-columns
-                # (heap corruption); each such case needs its own mpirun, so only a few of them are generated
-                if bs >= 2 and K >= 2: reps = (1 if K == 2 + np_ % 2 else 0) if quick else 2
-                else: reps = 3 if quick else 10
-                for _ in range(reps):
+                for _ in range(3 if quick else 10):
                     n, M, p, B = ns_system(r, np_, K, bs)
                     eps = r.choice(["2/25", "2/25", "1/4", "1/8", "0"])
                     add(np_, "pmis", "eps_strong=%s block_size=%d" % (eps, bs), "--", fmt_crs(n, n, M), fmt_ivec(p), K, fmt_vec(B))
@@ -171,11 +175,17 @@ def cases(tier, seed):
     for n in ((1, 2, 3, 4) if quick else (1, 2, 3, 4, 5)):
         und = [(a, b) for a in range(n) for b in range(a + 1, n)]
         graphs = [[e for e, bit in zip(und, bits) if bit] for bits in itertools.product([0, 1], repeat=len(und))]
-        if n == 5: graphs = r.sample(graphs, 300)
-        for g in graphs:
+        for gi, g in enumerate(graphs):
             sym = g + [(b, a) for a, b in g]
-            for np_ in (1, 2, 3, 4):
+            # n = 5 (thorough): all 1024 graphs x all partitions on 2 and 3 ranks; 1 and 4 ranks for every 8th graph
+            for np_ in ((1, 2, 3, 4) if n < 5 or gi % 8 == 0 else (2, 3)):
                 for p in all_parts(n, np_): graph_case(np_, n, sym, p)
+    if not quick:
+        und = [(a, b) for a in range(6) for b in range(a + 1, 6)]
+        for _ in range(250):
+            g = [e for e in und if r.random() < 0.4]
+            for np_ in (2, 3):
+                for p in all_parts(6, np_): graph_case(np_, 6, g + [(b, a) for a, b in g], p)
     # directed patterns (structurally non-symmetric strength matrix): exhaustive for n <= 3, sampled above
     for n in (2, 3):
         dire = [(a, b) for a in range(n) for b in range(n) if a != b]
@@ -190,6 +200,17 @@ def cases(tier, seed):
         g = [(a, b) for a in range(n) for b in range(n) if a != b and r.random() < dens]
         if r.random() < 0.5: g = sorted(set(g + [(b, a) for a, b in g]))
         graph_case(np_, n, g, gen.rcomposition(r, n, np_, empty_bias=0.15))
+    # sparse graphs with long distances and shuffled labels (trees, paths, cycles with chords): ranks interleave along the
+    # paths, so roots are blocked / released over several rounds and claims cross several rank boundaries
+    for _ in range(800 if quick else 6000):
+        n = r.randint(8, 24 if quick else 36); np_ = r.choice([3, 4] if quick else [3, 4, 5, 6, 8])
+        lab = list(range(n)); r.shuffle(lab)
+        kind = r.choice(["path", "tree", "cycle+", "cycle+"])
+        if kind == "path": g = [(lab[k], lab[k + 1]) for k in range(n - 1)]
+        elif kind == "tree": g = [(lab[k], lab[r.randrange(max(0, k - 3), k)]) for k in range(1, n)]
+        else: g = [(lab[k], lab[(k + 1) % n]) for k in range(n)] + [(r.randrange(n), r.randrange(n)) for _ in range(r.randint(0, 2))]
+        g = sorted(set((a, b) for a, b in g if a != b) | set((b, a) for a, b in g if a != b))
+        graph_case(np_, n, g, gen.rcomposition(r, n, np_, empty_bias=0.1))
     # larger random symmetric graphs with weights and a non-trivial threshold
     for _ in range(60 if quick else 600):
         np_ = r.choice([2, 3, 4] if quick else [2, 3, 4, 5, 6, 8]); n = r.randint(8, 40)
@@ -450,8 +471,6 @@ def ns_config(line):
 
 def known_config(line):
     """configurations of the known findings about the near-null space in the distributed coarsening:
-       block-columns      cols * (block_size - 1) >= block_size: the column index `null_cols * s / block_size` of
-                          pmis::tentative_prolongation is wrong for the second, ... unknown of a point;
        coarse-block_size  solve with >= 2 coarsening steps, block_size >= 2: the mpi coarsenings keep aggr.block_size on the
                           coarse levels although the coarse unknowns come in blocks of nullspace.cols
                           (assert "Matrix size should be divisible by block_size" / points cut through the blocks);
@@ -467,7 +486,6 @@ def known_config(line):
     if op not in ("pmis", "solve"): return None
     bs, K = ns_config(line)
     if K == 0: return None
-    if bs >= 2 and K * (bs - 1) >= bs: return ("block-columns", True)
     head = line.split(" -- ", 1)[0]
     if op == "solve":
         deep = "precond.max_levels=2" not in head
@@ -555,6 +573,8 @@ def check_pmis(line, out, np_, olines, fails, ctx):
                 " ".join(str(rw[0][0]) if rw else "-1" for rw in P[2]), S[0], S[1],
                 "".join(" |" + "".join(" %d" % col for col, _ in sorted(rw)) for rw in S[2]))
         ctx.setdefault("c12_model", []).append((c.cid, "%s.m m.pmis %s %s %s" % (c.cid, tokA, fmt_ivec(c.parts), fmt_q(eps2)), want, line, out))
+        if not symmetric:     # evidence: does the "drop empty aggregates" renumbering do anything in this case?
+            ctx.setdefault("c12_drop", []).append("%s.d m.pmisdrop %s %s %s" % (c.cid, tokA, fmt_ivec(c.parts), fmt_q(eps2)))
     if bs == 1 and symmetric:
         olines.append(("every non-isolated unknown is aggregated, every isolated one is left out",
                        "%s.is o.isolated %s %s %s" % (c.cid, tokA, tokP, fmt_q(eps * eps))))
@@ -703,8 +723,14 @@ def run(ctx, cases_override=None):
             x["impl"] = (impl.get(cid) or "")[:3000]
         fails += f2
         # third stage: the extracted PMIS model on the same inputs
+        dl = ctx.pop("c12_drop", [])
+        if dl:
+            res = ctx["run_driver"](ctx["model"], dl)
+            k = sum(1 for v in res.values() if v.strip().isdigit() and int(v) > 0)
+            if k: ns_stat(ctx, "pmis_model_tie_cases_where_renumbering_drops_an_empty_aggregate", k)
         ml = ctx.pop("c12_model", [])
         if ml:
+            ns_stat(ctx, "pmis_model_tie_cases", len(ml))
             res = ctx["run_driver"](ctx["model"], [m[1] for m in ml])
             tick("model np=%d (%d)" % (np_, len(ml)))
             for cid, mline, want, l, o in ml:
@@ -719,7 +745,6 @@ def run(ctx, cases_override=None):
 
 
 KNOWN_SITES = {
-    "block-columns":     dict(site="mpi-pmis-tentative_prolongation", defect="nullspace-column-index-with-block_size"),
     "coarse-block_size": dict(site="mpi-coarsening", defect="block_size-kept-on-coarse-levels-with-nullspace"),
     "small-aggregates":  dict(site="mpi-pmis", defect="aggregate-smaller-than-nullspace-cols"),
     "not-repartitioned": dict(site="mpi-amg-step_down", defect="coarse-nullspace-not-repartitioned"),
@@ -757,7 +782,7 @@ def classify(fail):
             if kind == "small-aggregates" and not deep:
                 # one coarsening step only: known only if the implementation's own P_tent shows such an aggregate
                 if runlevel and o.get("small_aggregate"): return dict(KNOWN_SITES[kind], check="run")
-            elif kind == "block-columns" or runlevel or (lvl is not None and lvl >= 1):
+            elif runlevel or (lvl is not None and lvl >= 1):
                 return dict(KNOWN_SITES[kind], check="run" if runlevel else "hierarchy")
     except Exception:
         pass
